@@ -51,6 +51,7 @@ type fin struct {
 	ViaModel   bool   // delete: key carried by Model(&Item{ID}) instead of the deleted value
 	Composite  bool   // find-pk / update: the model value is an Item2 (composite key id, k2)
 	K2         int    // second key part of the Item2 value (0 = not set)
+	PK2        int    // delete via Model: key of the deleted VALUE next to the key of the Model value (0 = none)
 	Inline     *cond.Unit
 	Variant    string     // find: destination form; first: first|take|last; update: the update method
 	Scope      *cond.Unit // db.Scopes(func(d) d.Where(unit)) at the head of the chain: applied last, AND-ed
@@ -97,7 +98,11 @@ func (f fin) String() string {
 		return "Model(&Item{" + pk + "})[" + pos + "]." + m
 	}
 	if f.ViaModel {
-		return "Model(&Item{" + pk + "}).Delete(&Item{}" + in + ")"
+		v := ""
+		if f.PK2 != 0 {
+			v = fmt.Sprintf("ID:%d", f.PK2)
+		}
+		return "Model(&Item{" + pk + "}).Delete(&Item{" + v + "}" + in + ")"
 	}
 	return "Delete(&Item{" + pk + "}" + in + ")"
 }
@@ -133,6 +138,9 @@ func (c tcase) pred() *cond.Node {
 	}
 	if c.Fin.PK != 0 {
 		tail = append(tail, cond.Atom("id", cond.OpEq, cond.IntV(c.Fin.PK)))
+	}
+	if c.Fin.PK2 != 0 {
+		tail = append(tail, cond.Atom("id", cond.OpEq, cond.IntV(c.Fin.PK2)))
 	}
 	if c.Fin.Scope != nil {
 		tail = append(tail, c.Fin.Scope.Pred())
@@ -209,9 +217,18 @@ func genCase(rt *rapid.T) tcase {
 			composite()
 		}
 	case "delete":
-		if x.Pct(20) {
+		if x.Pct(30) {
 			c.Fin.PK = pk()
-			c.Fin.ViaModel = x.Pct(50)
+			c.Fin.ViaModel = x.Pct(60)
+			if c.Fin.ViaModel {
+				// keys on the Model value, on the deleted value, or on both (AND-ed)
+				switch x.N(3) {
+				case 0:
+					c.Fin.PK2 = pk()
+				case 1:
+					c.Fin.PK, c.Fin.PK2 = 0, pk()
+				}
+			}
 		}
 		if x.Pct(30) {
 			c.Fin.Inline = cond.GenInline(rt, cfg)
@@ -378,7 +395,7 @@ func run(c tcase) (outcome, error) {
 	case "delete":
 		tx := cond.ApplyCalls(start, env, c.Calls)
 		if c.Fin.ViaModel {
-			tx = tx.Model(&cond.Item{ID: c.Fin.PK}).Delete(&cond.Item{}, inline...)
+			tx = tx.Model(&cond.Item{ID: c.Fin.PK}).Delete(&cond.Item{ID: c.Fin.PK2}, inline...)
 		} else {
 			tx = tx.Delete(&cond.Item{ID: c.Fin.PK}, inline...)
 		}
@@ -574,7 +591,7 @@ func nontrivial(c tcase, selected int) bool {
 	if c.Fin.Inline != nil {
 		c.Fin.Inline.Walk(cond.VWhere, 0, count)
 	}
-	if c.Fin.PK != 0 || c.Fin.K2 != 0 {
+	if c.Fin.PK != 0 || c.Fin.K2 != 0 || c.Fin.PK2 != 0 {
 		units++
 	}
 	return units >= 2 && hard && selected > 0 && selected < len(c.Rows)
@@ -592,8 +609,11 @@ func classes(c tcase) []string {
 	if c.Fin.Scope != nil {
 		cl = append(cl, "scope:where-in-Scopes")
 	}
-	if c.Fin.PK != 0 || c.Fin.K2 != 0 {
+	if c.Fin.PK != 0 || c.Fin.K2 != 0 || c.Fin.PK2 != 0 {
 		cl = append(cl, "pk:model-value")
+	}
+	if c.Fin.Kind == "delete" && c.Fin.ViaModel {
+		cl = append(cl, fmt.Sprintf("delete:model-key-%v/value-key-%v", c.Fin.PK != 0, c.Fin.PK2 != 0))
 	}
 	if c.Fin.Composite {
 		cl = append(cl, "pk:composite", fmt.Sprintf("pk:composite-parts-%v-%v", c.Fin.PK != 0, c.Fin.K2 != 0))
